@@ -1,3 +1,5 @@
 (* with ExtrOcamlZBigInt the extracted Z is zarith's Z.t *)
 let of_string s : Big_int_Z.big_int = Z.of_string s
 let to_string (x : Big_int_Z.big_int) = Z.to_string x
+let to_zt (x : Big_int_Z.big_int) : Z.t = x
+let of_zt (x : Z.t) : Big_int_Z.big_int = x
